@@ -158,7 +158,12 @@ func c18One(p *run.Part, spec entrySpec, wk string) {
 			_ = wc.ApplyOptions(&cbor.Options{LinkKey: sk})
 		}
 	}
-	for _, rk := range []string{"none", "K1", "K2", "own"} {
+	readers := []string{"none", "K1", "K2", "own"}
+	if wk == "K1" && hasLinks {
+		// keys one bit away from the writer's, at the first, a middle and the last byte
+		readers = append(readers, "K1^0", "K1^15", "K1^31")
+	}
+	for _, rk := range readers {
 		var rio iface.IO
 		if rk == "own" {
 			if wk == "none" {
